@@ -104,6 +104,19 @@ let init () =
                      out (fun x -> ok (res_text x)) (RadixApi.i_fmt p k fl (arg_i a))))
     (two (fun f a -> let (k, fl) = arg_fmt f in
                      out (fun x -> ok (res_text x)) (SpecRadix.spec_fmt k fl (Base.ival (arg_i a)))));
+  (* ---- round trips ---- *)
+  reg_ms "u.rt_str"
+    (two (fun a r -> out (parse_res res_u) (RadixApi.u_rt_str p (arg_u a) (arg_n r))))
+    (two (fun a r -> ok (res_u (Base.enc (v (arg_u a))))));
+  reg_ms "i.rt_str"
+    (two (fun a r -> out (parse_res res_i) (RadixApi.i_rt_str p (arg_i a) (arg_n r))))
+    (two (fun a r -> ok (res_i (Base.ienc (Base.ival (arg_i a))))));
+  reg_ms "u.rt_radix_le"
+    (two (fun a r -> out (opt (fun x -> ok (res_u x))) (RadixApi.u_rt_radix_le p (arg_u a) (arg_n r))))
+    (two (fun a r -> ok (res_u (Base.enc (v (arg_u a))))));
+  reg_ms "u.rt_radix_be"
+    (two (fun a r -> out (opt (fun x -> ok (res_u x))) (RadixApi.u_rt_radix_be p (arg_u a) (arg_n r))))
+    (two (fun a r -> ok (res_u (Base.enc (v (arg_u a))))));
   (* ---- hook level ---- *)
   reg_m "h.to_radix_digits_le"
     (two (fun a r -> out (fun x -> ok (res_b x)) (RadixApi.u_to_radix_digits_le p (arg_u a) (arg_n r))));
